@@ -916,7 +916,17 @@ Print Assumptions C10_fips_ntt.
    "out of stream" when ExpandA / SampleInBall exceed the Squeeze bounds 672 /
    1024.  (Signatures of any other length are rejected by the model: that is
    the length check of the Go code, C10_verify_other_answers; the standard
-   types sigma as a string of that length.) *)
+   types sigma as a string of that length.)  Two notes of the third audit:
+   (a) for |ctx| > 255 Algorithm 3 of FIPS 204 returns bot, an error distinct
+   from false; FIPS.Verify (and the model, and the Go verifier, which reports
+   an error in both cases) return "reject" = Some false there.  (b) "model =
+   FIPS transcription" holds for ALL inputs including the None branches; the
+   Go samplers loop without a bound where the model and the transcription
+   return None beyond 672 / 1536 / 1024 Squeeze calls, so "Go = model" can
+   fail only on a None branch, which needs more than 2016 bytes of SHAKE128
+   output for 256 coefficients (probability < 2^-800 per polynomial) or more
+   than 1536 / 1024 bytes of SHAKE256 for RejBoundedPoly / SampleInBall:
+   reachable only with an XOF that is not SHAKE. *)
 Theorem C10_fips_verify : forall (H G : bytes -> nat -> bytes) P,
   xof_laws H -> xof_laws G -> P = MLDSA44 \/ P = MLDSA65 \/ P = MLDSA87 ->
   (forall pkb pk mu sigma, pkDecode H P pkb = Some pk -> length sigma = signatureLength P ->
